@@ -115,6 +115,42 @@ fn main_check(ctx: &Ctx) -> Outcome {
             }
         }
     }
+    // the parser built under each of its four feature sets (fixed-size buffers under `core`): panics only -
+    // whether the builds agree with the model and with each other is C20's business
+    for (name, feats) in vchecks::parsecfg::CONFIGS {
+        match vchecks::parsecfg::build_and_run(name, feats, if ctx.quick() { 3 } else { 4 }, 300.0) {
+            Ok((v, digests)) => {
+                let _ = std::fs::remove_file(&digests);
+                let n = v["transitions"].as_u64().unwrap_or(0) + v["sweep_inputs"].as_u64().unwrap_or(0);
+                evals += n;
+                distinct += n;
+                for viol in v["violations"].as_array().cloned().unwrap_or_default() {
+                    let msg = viol["message"].as_str().unwrap_or("").to_string();
+                    if msg.contains("panic") {
+                        out.findings.push(Finding {
+                            system: format!("Parser[{name}]::advance"),
+                            clause: "panic".into(),
+                            case: viol["labels"].as_array().map(|a| a.iter().map(|x| x.as_str().unwrap_or("").to_string()).collect()).unwrap_or_default(),
+                            message: msg,
+                            replay: json!({"kind":"parsecfg","config":name}),
+                        });
+                    }
+                }
+                out.push_part(json!({"configuration": format!("anstyle-parse features [{feats}]"), "bfs_transitions": v["transitions"], "boundary_sweep_inputs": v["sweep_inputs"], "depth": v["depth_completed"]}));
+            }
+            Err(m) if m.contains("gave no result") => out.findings.push(Finding {
+                system: format!("Parser[{name}]::advance"),
+                clause: "abort".into(),
+                case: vec![name.to_string()],
+                message: m,
+                replay: json!({"kind":"parsecfg","config":name}),
+            }),
+            Err(m) => {
+                println!("MACHINERY ERROR: {m}");
+                std::process::exit(2);
+            }
+        }
+    }
     out.set("evaluations", json!(evals));
     out.set("distinct_nontrivial", json!(distinct));
     out.set("rule", json!("evaluations = inputs fed to entry points (each input goes through several entry points and chunkings), summed over build configurations; every input is distinct within its block by construction"));
@@ -127,6 +163,16 @@ fn main_check(ctx: &Ctx) -> Outcome {
 }
 
 fn replay(v: &Value) -> Result<(), String> {
+    if v["kind"] == "parsecfg" {
+        let name = v["config"].as_str().unwrap_or("none");
+        let feats = vchecks::parsecfg::CONFIGS.iter().find(|c| c.0 == name).map(|c| c.1).unwrap_or("");
+        let (r, digests) = vchecks::parsecfg::build_and_run(name, feats, 3, 300.0)?;
+        let _ = std::fs::remove_file(&digests);
+        return match r["violations"].as_array().and_then(|a| a.iter().find(|x| x["message"].as_str().map_or(false, |m| m.contains("panic")))) {
+            Some(f) => Err(format!("[{name}] {}", f["message"].as_str().unwrap_or(""))),
+            None => Ok(()),
+        };
+    }
     let name = v["configuration"].as_str().unwrap_or("verif");
     let r = if name == "miri" { run_miri() } else { run_profile(name, "quick") }?;
     match r["findings"].as_array().and_then(|a| a.first()) {
